@@ -121,6 +121,16 @@ Theorem C18_transform_is_lookup : forall g lpv col out, transform g lpv col = Ok
 Proof. exact chained_transform_lookup. Qed.
 Print Assumptions C18_transform_is_lookup.
 
+(* transform outputs each value's group leader ("__NAN__" shown as NaN), for ANY frame whose cells
+   all have a leader; other frames are refused *)
+Theorem C18_transform_is_leader : forall levels col mfd drop c g lpv col' out,
+  fitted levels col mfd drop c g lpv ->
+  transform g lpv col' = Ok out ->
+  (forall r, In r (fillna col') -> In r (values g)) /\
+  out = map (fun r => if val_eqb (get_group g r) nan_s then VNaN else get_group g r) (fillna col').
+Proof. exact chained_transform_leader. Qed.
+Print Assumptions C18_transform_is_leader.
+
 (* the checker's ancestor test (evaluated on the IMPLEMENTATION's map) is the ancestor relation *)
 Theorem C18_checker_ancestor_sound : forall lvs v a, climbsb lvs v a = true <-> climbs lvs v a.
 Proof. exact climbsb_spec. Qed.
